@@ -230,10 +230,12 @@ def tasks_for(pid, tier):
         return (ds("once", 3 if q else 4, [0, 1]) + ds("once", 3, [2, 3]) +
                 ds("once", 2 if q else 3, [4, 5], jobs=4 if q else 8))
     if pid == "C06":
-        # 0-17 scenarios (9 and 12 run on a concurrent queue), 18-39 sequential depth histories
-        small = [v for v in range(0, 18) if v not in (9, 12)]
-        return (ds("suspend", 3 if q else 4, list(range(18, 40)), jobs=2) + ds("suspend", 2 if q else 3, small) +
-                ds("suspend", 1 if q else 2, [9, 12], jobs=8))
+        d = descs("suspend")
+        seq = [v for v in sorted(d) if d[v].startswith("sequential")]
+        conc = [v for v in sorted(d) if "[queue C" in d[v]]
+        small = [v for v in sorted(d) if v not in seq and v not in conc]
+        return (ds("suspend", 3 if q else 4, seq, jobs=2) + ds("suspend", 2 if q else 3, small) +
+                ds("suspend", 1 if q else 2, conc, jobs=8))
     if pid == "C07":
         pure = list(range(0, 16)) + [42, 43, 44, 45]
         two_q = [16, 17, 18, 19, 21, 23, 24, 25, 28, 29, 30, 31, 33, 34, 35, 39, 41, 46]   # 46: re-entry inside the last leaver's window (needs k=2)
